@@ -221,6 +221,21 @@ class Exec(Engine):
                     s.rebind(n, q, SSeq(sq.arr, sq.n - 1, sq.ek, "list"))
                     yield sq.at(sq.n - 1), q
             return
+        if isinstance(o, (SSeq, STup)) and attr == "remove" and o.pykind == "list":
+            sq = s.as_seq(o, p, ek=getattr(av[0], "kind", None))
+            v = av[0]
+            if getattr(v, "kind", None) != sq.ek:
+                raise OutOfSubset("remove of another element kind")
+            found = s.exists(0, sq.n, lambda k: z3.Select(sq.arr, k) == v.t)
+            q = s.may_raise("ValueError", found, p, f"remove:line{n.lineno}", n.lineno)
+            if q is not None:
+                r = fresh("ridx")
+                q.pc.append(z3.And(0 <= r, r < sq.n, z3.Select(sq.arr, r) == v.t, s.forall(0, r, lambda k: z3.Select(sq.arr, k) != v.t)))
+                na = fresh("rem", z3.ArraySort(I, sort_of(sq.ek)))
+                q.pc.append(s.forall(0, sq.n - 1, lambda k: z3.Select(na, k) == z3.If(k < r, z3.Select(sq.arr, k), z3.Select(sq.arr, k + 1))))
+                s.rebind(n, q, SSeq(na, sq.n - 1, sq.ek, "list"))
+                yield SConc(None), q
+            return
         if isinstance(o, (SSeq, STup)) and attr == "index":
             sq = s.as_seq(o, p)
             v = av[0]
@@ -336,7 +351,9 @@ class Exec(Engine):
                 yield STup([SInt(z3.simplify(lo + k)) for k in range(ln.as_long())], "range"), p1
             else:
                 vi = z3.Int("ri!")
-                yield SSeq(z3.Lambda([vi], lo + vi), ln, "int", "range"), p1
+                r = SSeq(z3.Lambda([vi], lo + vi), ln, "int", "range")
+                r.range_of = (lo, z3.simplify(lo + ln))  # membership in a range is decided arithmetically (no quantifier)
+                yield r, p1
 
     def bi_tuple(s, n, p):
         if not n.args:
@@ -361,7 +378,10 @@ class Exec(Engine):
                 yield STup(v.items, "list"), p1
             else:
                 sq = s.as_seq(v, p1)
-                yield SSeq(sq.arr, sq.n, sq.ek, "list"), p1
+                r = SSeq(sq.arr, sq.n, sq.ek, "list")
+                if hasattr(sq, "range_of"):
+                    r.range_of = sq.range_of
+                yield r, p1
 
     def bi_str(s, n, p):
         for v, p1 in s.ev(n.args[0], p):
@@ -621,6 +641,11 @@ class Exec(Engine):
         m = getattr(s, "st_" + type(st).__name__, None)
         if m is None:
             raise OutOfSubset(f"statement {type(st).__name__} at line {st.lineno}")
+        # ghost code of the sidecar contract (lemma invocations: assert the premises as obligations, then assume the conclusion), attached
+        # in front of the statement whose source text starts with the given anchor
+        for anchor, fn in getattr(s, "ghost_before", ()):
+            if ast.unparse(st).startswith(anchor):
+                fn(s, p)
         s._exc.append([])
         try:
             outs = list(m(st, p))
@@ -1106,8 +1131,10 @@ class Exec(Engine):
         if st.orelse:
             raise OutOfSubset("for-else with invariant")
         p.pc.append(n >= 0)
-        s.oblige(f"loop{ordn}:invariant-entry", p, inv(s, p, z3.IntVal(0)), "invariant", st.lineno)
         mod = s.assigned_names(st.body, p) | {nn.id for nn in ast.walk(st.target) if isinstance(nn, ast.Name)}
+        p.ghost = dict(p.ghost)
+        p.ghost[f"entry{ordn}"] = {nm: p.lookup(nm) for nm in mod if p.has(nm)}  # values at loop entry (old(...) in invariants)
+        s.oblige(f"loop{ordn}:invariant-entry", p, inv(s, p, z3.IntVal(0)), "invariant", st.lineno)
         q = p.fork()
         s.havoc(mod, q)
         s.havoc_ghost(q)
